@@ -13,7 +13,7 @@ from vf.core import Result, lib
 ID = "C06"
 TITLE = "Gas Z-factor is the root of the Dranchuk-Abou-Kassem equation of state"
 LEVEL = "exploration"
-BUDGET = {"quick": 8000, "thorough": 400000}
+BUDGET = {"quick": 8000, "thorough": 2000000}
 SHRINK = {"quick": True, "thorough": True}
 RULE = (
     "Hypothesis draws (T, p, T_pc, p_pc) either directly on the rectangle 1.05 <= T_r <= 3, 0 < p_r <= 30 "
